@@ -19,6 +19,7 @@ FRAGMENTS = [
     ("C1CCC2(CC1)CCCC2", ""), ("C1CC2CCC1C2", ""), ("C1CCCCC1", "t"), ("C1CCOC1", "t"), ("C1CC1", "s"), ("C1CCC1=O", ""),
     ("C[Si](C)(C)C", ""), ("C[Si](C)C", ""), ("C[N+](C)(C)C", ""), ("CC(=O)[O-]", ""), ("C[N+](=O)[O-]", ""), ("[NH3+]C", "s"),
     ("S(=O)C", "s"), ("CS(=O)", "s"), ("S(=O)(=O)C", ""), ("CCS(=O)(=O)", ""), ("P(C)C", "s"), ("CP(=O)(C)", ""), ("CSSC", ""), ("OP(=O)(O)C", ""),
+    ("CCO[H]", ""), ("CN[H]", "s"), ("NCCCCCCN[H]", ""), ("CC(C)C[H]", ""),  # a trailing explicit hydrogen (the SI writes '[>]NCCCCCCN[H]'): no written atom follows it
     ("[13CH3]C", "s"), ("C[13C](=O)OC", ""), ("[2H]C", "s"), ("CC(C)(C(=O)OC)", "t"), ("CC(C(=O)OC)", "t"), ("C(=O)", "s"), ("CCOCC", "t"),
 ]
 # the same molecule written with another atom order (descriptor atom indices follow the written order, so a cache keyed by the
@@ -468,6 +469,30 @@ def arch_sidecap(ctx, families=None, mean_units=None):
     lst = [float(r.choice([1, 2, 0.5])) if (okind == "end" and o.sym == ">" and o.id == sid) else 0.0 for o, okind, _, _ in descs]
     side.weight = lst
     return m
+
+
+HOSTILE_H = ["C([H])C", "[H]C(C)C", "CC([H])([H])C", "C([H])([H])CO", "[H]N(C)C", "C([H])CC"]
+
+
+def arch_hostile_h(ctx, families=None, mean_units=None):
+    """hostile input class: a repeat unit that writes an explicit hydrogen BEFORE an atom that carries a bond descriptor (valid notation; the
+    written-order index of that atom counts the hydrogen)"""
+    r = ctx.rng
+    for _ in range(200):
+        smi = r.choice(HOSTILE_H)
+        try:
+            u = build_token(r, smi, [ctx.lt(), ctx.gt()], "any")
+        except ValueError:
+            continue
+        h_idx = [i for i, a in enumerate(u.atoms) if a.atom == "[H]"]
+        if any(a > min(h_idx) for _, a in u.descriptors()):
+            break
+    else:
+        raise ValueError("no hostile placement")
+    u.name = smi
+    ends = [single_atom_token(r.choice(["F", "Cl", "O"]), ctx.lt()), single_atom_token(r.choice(["Br", "N", "C"]), ctx.gt())]
+    s = StochAst(D(""), D(""), [u], ends, _dist_for(ctx, [u], mean_units or 2, families=families))
+    return MolAst([s], arch="hostile_h")
 
 
 def arch_lists(ctx, families=None, mean_units=None):
